@@ -28,7 +28,8 @@ reg(Prop(
          'on one stream); a distinct case is one (entry, input) or one (entry, row/chunk of operands), hashed canonically.'
          ' Memory helpers: endianness::reverse_mem on every block length 0..17 over exactly sized buffers; raw_vector push_back / insert / insert(n) / resize with every own element as the value, at and below capacity.'
          ' phrase_parse_stream over streams handed over with eofbit, failbit, badbit or eofbit|failbit already set: returns an either.'
-         ' io::widen_string objects made from a temporary / a destroyed local and streamed afterwards.',
+         ' io::widen_string objects made from a temporary / a destroyed local and streamed afterwards.'
+         ' time::localtime / time::gmtime from four threads at once, 150000 calls each, against the re-entrant C functions.',
     assumptions=COMMON_ASSUMPTIONS + [
         'side conditions taken from the statement ("whose mathematically exact result is representable", "not documented as '
         'unsafe"): inputs whose 128-bit exact result does not fit the return type are skipped and counted (ceil_div_signed/div '
